@@ -90,9 +90,34 @@ fn soup(rng: &mut Rng) -> Vec<u8> {
     b
 }
 
+/// deterministic regression witnesses of repaired defects, walked first on every run
+fn witnesses() -> Vec<(String, Vec<u8>)> {
+    let mut out = vec![];
+    // 28a4efa: sampled function with a reversed /Domain interval (f32::clamp panicked with min > max)
+    for case in 0..400u64 {
+        let mut rng = Rng::derive(7, "c01.witness.domain", case);
+        let d = docgen::gen_document(&mut rng);
+        let pat = b"/FunctionType 0 /Domain [0 1 ";
+        if let Some(i) = d.bytes.windows(pat.len()).position(|w| w == pat) {
+            let mut b = d.bytes.clone();
+            b[i + pat.len() - 4] = b'1';
+            b[i + pat.len() - 2] = b'0';
+            out.push(("sampled-function-reversed-domain".to_string(), b));
+            if out.len() >= 3 { break; }
+        }
+    }
+    out
+}
+
 fn build_cases(seed: u64, thorough: bool) -> (Vec<Case>, Vec<String>) {
     let mut cases = vec![];
     let mut notes = vec![];
+    for (name, bytes) in witnesses() {
+        for c in 0..4 {
+            let (t, ca) = cfg(c);
+            cases.push(Case { family: "witness", desc: name.clone(), doc: Doc { bytes: bytes.clone(), tolerant: t, cached: ca } });
+        }
+    }
     let fixtures = corpus::fixture_files();
     let scale = if thorough { 60 } else { 4 };
     let mut normalised: Vec<(String, Vec<u8>)> = vec![];
